@@ -131,6 +131,11 @@ func TestC15Rich(t *testing.T) {
 				e = append(e, vtx.Event{K: "fail-relay", C: c, L: -1}, vtx.Event{K: "close-control", C: c, L: -1})
 			}
 		}
+		// a ConnectionBind whose data connection is reset behind the request: the success response cannot be
+		// written, and the peer connection the bind had claimed is released like any other that ends
+		for i := range m.ConnView["c1"] {
+			e = append(e, vtx.Event{K: "cbind", C: "c1", N: uint16(i), Peers: []string{"c1"}, Rule: "reset", L: -1}) //nolint:gosec
+		}
 
 		return append(e, vtx.Event{K: "close-server", L: -1})
 	}
